@@ -276,7 +276,8 @@ func (fc *FnCtx) fieldArr(st *State, f *types.Var, recvT types.Type) (heapKey, T
 func (fc *FnCtx) readField(st *State, base Term, recvT types.Type, f *types.Var) Term {
 	_, arr := fc.fieldArr(st, f, recvT)
 	v := Term{S: fmt.Sprintf("(select %s %s)", arr.S, base.S), Sort: sortOf(f.Type()), T: f.Type()}
-	if v.Sort == SStr || isSliceSort(v.Sort) {
+	if v.Sort == SStr || isSliceSort(v.Sort) || (v.Sort == SInt && !isIntegerType(f.Type())) {
+		// lengths are non-negative; references are non-negative (nil = 0)
 		for _, fact := range fc.rangeFacts(v, f.Type()) {
 			fc.assumeGlobal(boolT(fact))
 		}
